@@ -352,6 +352,24 @@ pub fn program_set(set: &str) -> Vec<Program<ThreadFam>> {
                     cfg: false,
                     threads: vec![main, g(b1), g(b2)],
                 });
+                // ScopedJoinHandle::join inside the scope (one child joined explicitly, the other by
+                // the end of the scope), before or after the body's own operations
+                for first in [true, false] {
+                    let mut mj = vec![GOp::ScopeBegin(vec![1, 2])];
+                    if first {
+                        mj.push(GOp::Join(2));
+                        mj.extend(g(&mb));
+                    } else {
+                        mj.extend(g(&mb));
+                        mj.push(GOp::Join(1));
+                    }
+                    mj.push(GOp::ScopeEnd);
+                    mj.extend(g(&[TOp::TlsCount]));
+                    out.push(Program {
+                        cfg: false,
+                        threads: vec![mj, g(b1), g(b2)],
+                    });
+                }
                 // nested scope inside a scoped thread
                 let mut t1 = vec![GOp::ScopeBegin(vec![2])];
                 t1.extend(g(b1));
@@ -363,6 +381,43 @@ pub fn program_set(set: &str) -> Vec<Program<ThreadFam>> {
                     cfg: false,
                     threads: vec![main2, t1, g(b2)],
                 });
+            }
+        }
+    }
+    if thorough {
+        // (4) three children, TLS in all of them; (5) IsFinished observed by main; (6) a scope of
+        // three; (7) three levels of spawning with joins by grand-parents
+        let seqs2 = op_seqs(&tls_alpha, 2);
+        for idx in nondecreasing_tuples(seqs2.len(), 3) {
+            let ch: Vec<Vec<TOp>> = idx.iter().map(|&i| seqs2[i].clone()).collect();
+            if ch.iter().map(|c| c.len()).sum::<usize>() > 5 {
+                continue;
+            }
+            for ms in [vec![], vec![TOp::TlsGet(2)], vec![TOp::Yield]] {
+                out.push(Program::fork_join(false, ms, ch.clone()));
+            }
+        }
+        for b1 in &body {
+            for b2 in &body {
+                for b3 in &body {
+                    let mut main = vec![GOp::ScopeBegin(vec![1, 2, 3])];
+                    main.push(GOp::ScopeEnd);
+                    main.extend(g(&[TOp::TlsCount]));
+                    out.push(Program {
+                        cfg: false,
+                        threads: vec![main, g(b1), g(b2), g(b3)],
+                    });
+                    // main -> 1 -> 2 -> 3; 1 joins 2, main joins 3 and 1
+                    let mut t1 = vec![GOp::Spawn(2)];
+                    t1.extend(g(b1));
+                    t1.push(GOp::Join(2));
+                    let mut t2 = vec![GOp::Spawn(3)];
+                    t2.extend(g(b2));
+                    out.push(Program {
+                        cfg: false,
+                        threads: vec![vec![GOp::Spawn(1), GOp::Join(1), GOp::Join(3)], t1, t2, g(b3)],
+                    });
+                }
             }
         }
     }
